@@ -101,6 +101,21 @@ std::unique_ptr<Oomd::Engine::DetectorGroup> compileDetectorGroup(
       group.name, std::move(detectors));
 }
 
+// Parses a plain non-negative decimal number. Anything else (sign, blanks,
+// trailing characters, a value that does not fit an int) is refused instead of
+// letting std::stoi throw or guess.
+std::optional<int> parseNonNegativeInt(const std::string& str) {
+  if (str.empty() || str.size() > 9) {
+    return std::nullopt;
+  }
+  for (char c : str) {
+    if (c < '0' || c > '9') {
+      return std::nullopt;
+    }
+  }
+  return std::stoi(str);
+}
+
 std::unique_ptr<Oomd::Engine::Ruleset> compileRuleset(
     const Oomd::Config2::IR::Ruleset& ruleset,
     bool dropin,
@@ -144,20 +159,22 @@ std::unique_ptr<Oomd::Engine::Ruleset> compileRuleset(
 
   // post_action_delay field is optional
   if (ruleset.post_action_delay.size()) {
-    post_action_delay = std::stoi(ruleset.post_action_delay);
-    if (post_action_delay < 0) {
-      OLOG << "Ruleset post_action_delay must be non-negative";
+    auto parsed = parseNonNegativeInt(ruleset.post_action_delay);
+    if (!parsed) {
+      OLOG << "Ruleset post_action_delay must be a non-negative integer";
       return nullptr;
     }
+    post_action_delay = *parsed;
   }
 
   // prekill_hook_timeout field is optional
   if (ruleset.prekill_hook_timeout.size()) {
-    prekill_hook_timeout = std::stoi(ruleset.prekill_hook_timeout);
-    if (prekill_hook_timeout < 0) {
-      OLOG << "Ruleset prekill_hook_timeout must be non-negative";
+    auto parsed = parseNonNegativeInt(ruleset.prekill_hook_timeout);
+    if (!parsed) {
+      OLOG << "Ruleset prekill_hook_timeout must be a non-negative integer";
       return nullptr;
     }
+    prekill_hook_timeout = *parsed;
   }
 
   for (const auto& dg : ruleset.dgs) {
